@@ -84,6 +84,7 @@ def run(ctx):
         ('G-exec-overlap', 40, 600, dict(overlap=True)),
         ('G-exec-burst', 60, 1000, dict(burst=True)),
         ('G-exec-oversell', 80, 1200, dict(p_bad=1.0, bad_kinds=['asg-cpu+1', 'asg-ram+'], bad_early=True)),
+        ('G-exec-oversell-huge', 40, 600, dict(p_bad=1.0, bad_kinds=['asg-cpu+1', 'asg-ram+'], bad_early=True, huge=True)),
         ('G-exec-opcount', 80, 1200, dict(p_bad=1.0, bad_kinds=['asg-two', 'asg-two', 'asg-empty'])),
         ('G-exec-stale-suspend', 80, 1200, dict(p_bad=1.0, bad_kinds=['susp-suspended', 'susp-suspended', 'susp-suspending'])),
     ], nontrivial=lambda run: any(e.get('new') for e in run.trace))
